@@ -25,13 +25,14 @@ var errAbort = errors.New("handler abort")
 // c14Outcome is everything observable about one call.
 type c14Outcome struct {
 	errNil  bool
+	errText string // the error's text: a failing call's outcome is its offset and its error
 	p       int
 	verdict bool
 	trace   []int64 // handler call trace incl. the results of re-entrant calls
 }
 
 func (a c14Outcome) equal(b c14Outcome) bool {
-	if a.errNil != b.errNil || a.verdict != b.verdict || (a.errNil && a.p != b.p) || len(a.trace) != len(b.trace) {
+	if a.errNil != b.errNil || a.verdict != b.verdict || a.p != b.p || a.errText != b.errText || len(a.trace) != len(b.trace) {
 		return false
 	}
 	for i := range a.trace {
@@ -84,14 +85,14 @@ func (h *c14Handler) reenter(data []byte) {
 	re := h.re
 	if re == 1 || re == 5 {
 		p, err := rjson.SkipValue(data, h.buf)
-		h.note(-2, int64(p)*b2i(err == nil), b2i(err == nil))
+		h.note(-2, int64(p), errCode(err))
 	}
 	if re == 2 || re == 5 {
 		h.note(-3, b2i(rjson.Valid(data, h.buf)))
 	}
 	if re == 3 || re == 5 {
 		p, err := rjson.SkipValueFast(data, h.buf)
-		h.note(-4, int64(p)*b2i(err == nil), b2i(err == nil))
+		h.note(-4, int64(p), errCode(err))
 	}
 	if (re == 4 || re == 5) && len(data) > 0 && h.nested < 6 {
 		inner := &c14Handler{buf: h.buf, mode: 0, re: h.re, trace: h.trace, limit: int64(len(data)) + 1, nested: h.nested + 1}
@@ -101,10 +102,10 @@ func (h *c14Handler) reenter(data []byte) {
 		switch data[0] {
 		case '[':
 			p, err := rjson.HandleArrayValues(data, inner, h.buf)
-			h.note(-5, int64(p)*b2i(err == nil), b2i(err == nil))
+			h.note(-5, int64(p), errCode(err))
 		case '{':
 			p, err := rjson.HandleObjectValues(data, inner, h.buf)
-			h.note(-6, int64(p)*b2i(err == nil), b2i(err == nil))
+			h.note(-6, int64(p), errCode(err))
 		}
 	}
 }
@@ -113,6 +114,14 @@ func (h *c14Handler) HandleArrayValue(data []byte) (int, error) { return h.handl
 func (h *c14Handler) HandleObjectValue(key, data []byte) (int, error) {
 	h.note(-7, int64(len(key)))
 	return h.handle(data)
+}
+
+// errCode folds an error into the trace: 1 for nil, otherwise a hash of its text.
+func errCode(err error) int64 {
+	if err == nil {
+		return 1
+	}
+	return -int64(core.Hash([]byte(err.Error())) >> 2)
 }
 
 // c14Call runs one step with the given buffer (nil = the model) on the given input slice.
@@ -138,6 +147,9 @@ func c14Call(step *core.Case, buf *rjson.Buffer, in []byte) (out c14Outcome) {
 		out.errNil = err == nil
 	default:
 		panic("unknown C14 step kind " + step.Kind)
+	}
+	if err != nil {
+		out.errText = err.Error()
 	}
 	return out
 }
@@ -185,16 +197,16 @@ func (r *c14Runner) step(step *core.Case) (info c14StepInfo, err error) {
 		for rep := int64(1); rep < ints[4] && got.equal(want); rep++ {
 			got = c14Call(step, &r.buf, in)
 			if !got.equal(want) {
-				return fmt.Errorf("%s with the reused Buffer, repetition %d of %d: (err==nil %v, p %d, verdict %v, trace %v); with no buffer: (err==nil %v, p %d, verdict %v, trace %v)",
-					step.Kind, rep+1, ints[4], got.errNil, got.p, got.verdict, clip(got.trace), want.errNil, want.p, want.verdict, clip(want.trace))
+				return fmt.Errorf("%s with the reused Buffer, repetition %d of %d: (err %q, p %d, verdict %v, trace %v); with no buffer: (err %q, p %d, verdict %v, trace %v)",
+					step.Kind, rep+1, ints[4], got.errText, got.p, got.verdict, clip(got.trace), want.errText, want.p, want.verdict, clip(want.trace))
 			}
 		}
 		handlerFn := step.Kind == "HandleArrayValues" || step.Kind == "HandleObjectValues"
 		info.reentrant = handlerFn && ints[3] != 0 && len(got.trace) > 0
 		info.nontrivial = (r.grew && r.aborted) || info.reentrant
 		if !got.equal(want) {
-			return fmt.Errorf("%s with the reused Buffer: (err==nil %v, p %d, verdict %v, trace %v); with no buffer: (err==nil %v, p %d, verdict %v, trace %v)",
-				step.Kind, got.errNil, got.p, got.verdict, clip(got.trace), want.errNil, want.p, want.verdict, clip(want.trace))
+			return fmt.Errorf("%s with the reused Buffer: (err %q, p %d, verdict %v, trace %v); with no buffer: (err %q, p %d, verdict %v, trace %v)",
+				step.Kind, got.errText, got.p, got.verdict, clip(got.trace), want.errText, want.p, want.verdict, clip(want.trace))
 		}
 		depth := 0
 		for _, c := range step.In {
